@@ -9,6 +9,7 @@ import (
 	"crypto/sha256"
 	"flag"
 	"fmt"
+	"github.com/massnetorg/mass-core/poc/pocutil"
 	"os"
 	"os/exec"
 	"path/filepath"
@@ -878,6 +879,9 @@ func main() {
 		realPlotDB(e)
 		storm(e)
 	}
+	if *focus == "C11" && !e.stuck {
+		requestDuringDelete(e)
+	}
 	h.Finish("schedules of plotter micro-steps (gated by hook H3), single and bulk actions on 1-3 workspaces, keeper start/quit and scripted plot outcomes against the real keeper with a scripted plot backend; every call under a watchdog; distinct = distinct (op, output) pairs")
 }
 
@@ -1113,6 +1117,27 @@ func storm(e *env) {
 						what, f = "mine all", func() { e.sk.ActOnWorkSpaces(engine.SFAll, engine.Mine) }
 					case k == 9:
 						what, f = "stop all", func() { e.sk.ActOnWorkSpaces(engine.SFAll, engine.Stop) }
+					case k == 10 && rnd(2) == 0:
+						// proofs through a reader whose context is cancelled while the keeper is still writing them
+						what, f = "proof readers", func() {
+							for j := 0; j < 20; j++ {
+								ctx, cancel := context.WithCancel(context.Background())
+								var ch pocutil.Hash
+								ch[0] = byte(j)
+								rd, err := e.sk.GetProofsReader(ctx, engine.SFAll, ch, false)
+								rd1, err1 := e.sk.GetProofReader(ctx, sid, ch, false)
+								if j%2 == 0 {
+									cancel()
+								}
+								if err == nil && j%3 == 0 {
+									rd.Read()
+								}
+								if err1 == nil && j%4 == 0 {
+									rd1.Read()
+								}
+								cancel()
+							}
+						}
 					case k == 10:
 						what, f = "infos", func() { e.sk.WorkSpaceInfos(engine.SFAll); e.sk.WorkSpaceIDs(engine.SFMining) }
 					default:
@@ -1139,6 +1164,73 @@ func storm(e *env) {
 			return
 		}
 		h.Res.Extra[fmt.Sprintf("storm_calls_%d", round)] = atomic.LoadInt64(&calls)
+	}
+	curGates = nil
+}
+
+// requestDuringDelete (C11): while a delete request is erasing a space's files, a mine or plot request for the same
+// space must not be accepted (delete is refused for a mining space; a space must not become mining once its files are
+// on their way out).  The scripted backend parks inside Delete().
+func requestDuringDelete(e *env) {
+	h := e.h
+	for _, kind := range []engine.ActionType{engine.Mine, engine.Plot} {
+		e.newKeeper(2)
+		curGates = nil
+		e.w.auto = true
+		if err := e.sk.Start(); err != nil {
+			h.FailWith("C11:keeper-start", err.Error(), nil)
+			return
+		}
+		sid := e.sidOf[0]
+		e.w.parkDel, e.w.inDel = make(chan struct{}), make(chan struct{}, 1)
+		delDone := make(chan error, 1)
+		go func() { delDone <- e.sk.ActOnWorkSpace(sid, engine.Delete) }()
+		select {
+		case <-e.w.inDel:
+		case err := <-delDone:
+			h.FailWith("C11:delete-scenario", fmt.Sprintf("delete of an idle registered space did not reach the backend: %v", err), nil)
+			return
+		case <-time.After(5 * time.Second):
+			h.FailWith("C11:delete-scenario", "delete did not reach the backend within 5 s", nil)
+			return
+		}
+		reqDone := make(chan error, 1)
+		go func() { reqDone <- e.sk.ActOnWorkSpace(sid, kind) }()
+		var reqErr error
+		answered := false
+		select {
+		case reqErr = <-reqDone:
+			answered = true
+		case <-time.After(300 * time.Millisecond):
+		}
+		close(e.w.parkDel)
+		e.w.parkDel = nil
+		delErr := <-delDone
+		if !answered {
+			select {
+			case reqErr = <-reqDone:
+			case <-time.After(5 * time.Second):
+				h.FailWith("C13:request-hangs", "a request issued during a delete did not return within 5 s of the delete", nil)
+				return
+			}
+		}
+		time.Sleep(20 * time.Millisecond)
+		h.Res.OracleEvals++
+		st := e.sk.VerifState()
+		indexed := false
+		for _, sp := range st.Spaces {
+			if sp.SID == sid && sp.InAll {
+				indexed = true
+			}
+		}
+		if delErr == nil && (reqErr == nil || indexed) {
+			h.FailWith("C11:request-accepted-during-delete", fmt.Sprintf("a %v request for a space was accepted (err=%v, still indexed=%v) while a delete request was erasing its files", kind, reqErr, indexed),
+				[]string{"delete 0 (backend parked inside Delete); " + kind.String() + " 0; release"})
+		}
+		if !guard(10*time.Second, func() { e.sk.Stop() }) {
+			h.FailWith("C13:stop-never-returns", "Stop() after the delete scenario did not return", nil)
+			return
+		}
 	}
 	curGates = nil
 }
